@@ -216,13 +216,18 @@ func parseForm[K any](ks keyspace[K], s string, levels int) ([]formNode, bool) {
 			n.F = append(n.F, idx)
 		}
 		if i == 0 && levels > 0 {
-			// the real head has more levels than the model explores: the extra ones must be nil
+			// the real head has more levels than the model explores: the extra ones are nil as long as the heights are the
+			// ones the replay asked for; if they are not (the height generator changed) the head is left as it is: the
+			// finger structure then differs from the model's (drift), the property predicates do not depend on heights
+			extra := false
 			for _, f := range n.F[min(levels, len(n.F)):] {
 				if f != -1 {
-					return nil, false
+					extra = true
 				}
 			}
-			n.F = n.F[:min(levels, len(n.F))]
+			if !extra {
+				n.F = n.F[:min(levels, len(n.F))]
+			}
 		}
 		out = append(out, n)
 	}
